@@ -72,6 +72,7 @@ def dumpHeader (pfx : String) (d : Bytes) (padding : Option (R Unit (Option UInt
     (pfx ++ "version", acc (hVersion d) toString),
     (pfx ++ "type", acc (hType d) toString),
     (pfx ++ "count", acc (hCount d) toString),
+    (pfx ++ "subtype", acc (hCount d) toString),
     (pfx ++ "length", acc (hLength d) toString)]
   match padding with
   | some p => o.push (pfx ++ "padding", acc p optPad)
@@ -218,7 +219,8 @@ def paddingOf (p : Packet) : Option (R Unit (Option UInt8)) :=
 
 /-- the `packet` view (after `res`): variant, header, inner keys, optionally the conversion matrix -/
 def dumpPacketView (pfx : String) (base : Nat) (p : Packet) (bytes : Bytes) (full : Bool) : Out := Id.run do
-  let mut o : Out := #[(pfx ++ "variant", variantName p)]
+  let mut o : Out := #[(pfx ++ "variant", variantName p),
+    (pfx ++ "is_unknown", match p with | .unknown _ => "true" | _ => "false")]
   o := o ++ dumpHeader pfx p.data (paddingOf p)
   o := o ++ dumpInner pfx base p
   if full then
